@@ -550,9 +550,15 @@ func (r *Run) execLib(op *OpDesc, c *Call) []*Violation {
 	var twin *Operands
 	var twinOut Outcome
 	doDiff := r.armed("C11") && misuse == "" && hasAliasing(op, c) && !op.Dynamic
+	// Which of the two calls runs first alternates from step to step: whichever
+	// runs first finds value-keyed caches cold, and an aliasing bug on the cold path
+	// of an operation must not be masked by a twin that has always warmed it.
+	twinFirst := r.StepNo%2 == 1
 	if doDiff {
 		twin = r.resolveDistinct(op, c, pre, ops)
-		twinOut = op.run(twin)
+		if twinFirst {
+			twinOut = op.run(twin)
+		}
 	}
 
 	// --- execute on the world ---
@@ -570,6 +576,9 @@ func (r *Run) execLib(op *OpDesc, c *Call) []*Violation {
 		}
 	}
 	out := op.run(ops)
+	if doDiff && !twinFirst {
+		twinOut = op.run(twin)
+	}
 
 	var vs []*Violation
 	add := func(v *Violation) { vs = append(vs, v) }
